@@ -709,6 +709,9 @@ impl<Key, Value> CacheD<Key, Value>
 
     /// (total increments since the last ageing, reset threshold) of the frequency sketch.
     pub fn verif_sketch_progress(&self) -> (u64, u64) { self.admission_policy.verif_sketch_progress() }
+
+    /// How often the frequency sketch has aged so far.
+    pub fn verif_sketch_resets(&self) -> u64 { self.admission_policy.verif_sketch_resets() }
 }
 
 /// `MultiGetIterator` allows iterating over multiple keys and getting the value corresponding to each key.
